@@ -253,6 +253,27 @@ def norm_ends(node, suffix: str) -> bool:
     return ast.unparse(node).endswith(suffix)
 
 
+def _centres_data(fi) -> bool:
+    """Both data arrays are mean-centred element-wise (`x - x.mean()`, `x - np.mean(x)`, `x - sum(x)/n`) somewhere in the body."""
+    params = [a.arg for a in fi.node.args.args][:2]
+    centred = set()
+    for n_ in ast.walk(fi.node):
+        if isinstance(n_, ast.BinOp) and isinstance(n_.op, ast.Sub) and isinstance(n_.left, ast.Name) and n_.left.id in params:
+            agg = [c for c in ast.walk(n_.right) if isinstance(c, ast.Call) and (
+                (isinstance(c.func, ast.Attribute) and c.func.attr in ("mean", "sum", "average")) or (isinstance(c.func, ast.Name) and c.func.id in ("sum",)))]
+            names = {m.id for m in ast.walk(n_.right) if isinstance(m, ast.Name)}
+            if agg and n_.left.id in names:
+                centred.add(n_.left.id)
+            elif isinstance(n_.right, ast.Name):
+                # x - mx with mx assigned from an aggregate of x
+                for st in ast.walk(fi.node):
+                    if isinstance(st, ast.Assign) and any(isinstance(t_, ast.Name) and t_.id == n_.right.id for t_ in st.targets):
+                        nm2 = {m.id for m in ast.walk(st.value) if isinstance(m, ast.Name)}
+                        if n_.left.id in nm2 and any(isinstance(c, ast.Call) for c in ast.walk(st.value)):
+                            centred.add(n_.left.id)
+    return len(centred) == 2
+
+
 def _best_fit(rc: RuleCtx):
     res = rc.res
     for adjusted in (False, True):
@@ -283,6 +304,25 @@ def _best_fit(rc: RuleCtx):
                 cc = [a for a in v.all_atoms() if a.kind == "fn" and a.name == "item" and any(
                     b.name.startswith("np.corrcoef") for b in a.args[0].all_atoms() if b.kind == "fn")]
                 if len(cc) != 1:
+                    # a re-implementation of the Pearson correlation?  compare with its moment form in exact arithmetic
+                    sx, sy = anf.f_sum(x, n), anf.f_sum(y, n)
+                    cxy = anf.f_sum(x * y, n) - sx * sy / n
+                    cxx = anf.f_sum(x * x, n) - sx * sx / n
+                    cyy = anf.f_sum(y * y, n) - sy * sy / n
+                    alg = cxy * cxy / (cxx * cyy)
+                    want_alg = alg if not adjusted else Rat.const(1).sub(Rat.const(1).sub(alg).mul(n.sub(Rat.const(1)).div(n.sub(Rat.const(2)))))
+                    if len(cc) == 0 and v.equals(want_alg):
+                        centred = _centres_data(fi)
+                        if centred:
+                            seen_corr = True
+                            continue
+                        ok = False
+                        res.violation("B", fi.module, fi.name, fi.node,
+                                      "best-fit R2 is re-implemented with the one-pass raw-moment formula (sum(x*y) - sum(x)*sum(y)/n, ...): it equals the squared Pearson "
+                                      "correlation only in exact arithmetic - for data with an offset that is large compared with its spread the subtractions cancel and "
+                                      "the value is wrong (even outside [0, 1])", _short(v), "corrcoef(x,y)[0,1]**2 (or moments of the mean-centred data)",
+                                      construct="best fit r2 raw moments")
+                        continue
                     ok = False
                     res.violation("B", fi.module, fi.name, fi.node,
                                   "best-fit R2 is not a function of corrcoef(x, y)[0, 1]", _short(v), "corrcoef(x,y)[0,1]**2",
